@@ -93,7 +93,7 @@ func genC27(seed int64, tier string, emit func(run.Case)) {
 		for i := 0; i < nr; i++ {
 			add(c27In{Kind: "fit-rand", Shape: t, Seed: r.Int63(), N: tierN(tier, 12000, 100000)})
 		}
-		nt := tierN(tier, 2, 160)
+		nt := tierN(tier, 2, 80)
 		for i := 0; i < nt; i++ {
 			add(c27In{Kind: "trace", Shape: t, Seed: r.Int63(), N: 25, Ang: 720})
 		}
